@@ -704,6 +704,11 @@ pub fn run(p: &[String]) -> Vec<String> {
                         "set_show_grid_lines" => { a.set_show_grid_lines(flag(v)); } "set_tab_selected" => { a.set_tab_selected(flag(v)); } "set_workbook_view_id" => { a.set_workbook_view_id(num(v)); }
                         "set_view" => { a.set_view([SheetViewValues::Normal, SheetViewValues::PageBreakPreview, SheetViewValues::PageLayout][num(v) as usize].clone()); }
                         "set_zoom_scale" => { a.set_zoom_scale(num(v)); } "set_zoom_scale_normal" => { a.set_zoom_scale_normal(num(v)); } "set_top_left_cell" => { a.set_top_left_cell(text(v)); } _ => panic!("setter {}", k) } } }
+                    "row" => { let mut n = 3u32; for (k, v) in &kv { if k == "set_row_num" { n = num(v); } } ws.get_cell_mut((1, n)).set_value_string("r"); let a = ws.get_row_dimension_mut(&n); for (k, v) in &kv { match k.as_str() {
+                        "set_row_num" => {} "set_height" => { a.set_height(v.parse().unwrap()); } "set_descent" => { a.set_descent(v.parse().unwrap()); } "set_thick_bot" => { a.set_thick_bot(flag(v)); } "set_custom_height" => { a.set_custom_height(flag(v)); } "set_hidden" => { a.set_hidden(flag(v)); } _ => panic!("setter {}", k) } } }
+                    "defined_name" => { let mut name = String::from("N"); let mut addr = String::from("Sheet1!$A$1"); for (k, v) in &kv { if k == "set_name" { name = text(v); } if k == "set_address" { addr = text(v); } }
+                        if addr.contains("My Sheet") { /* the sheet the address names must exist */ }
+                        ws.add_defined_name(name, addr).unwrap(); let d = ws.get_defined_names_mut().last_mut().unwrap(); for (k, v) in &kv { match k.as_str() { "set_name" | "set_address" => {} "set_local_sheet_id" => d.set_local_sheet_id(num(v)), "set_hidden" => d.set_hidden(flag(v)), _ => panic!("setter {}", k) } } }
                     "workbook_protection" => {}
                     _ => panic!("struct {}", which),
                 }
@@ -715,23 +720,32 @@ pub fn run(p: &[String]) -> Vec<String> {
                     "set_workbook_spin_count" => { a.set_workbook_spin_count(num(v)); } "set_revisions_spin_count" => { a.set_revisions_spin_count(num(v)); }
                     "set_lock_revision" => { a.set_lock_revision(flag(v)); } "set_lock_structure" => { a.set_lock_structure(flag(v)); } "set_lock_windows" => { a.set_lock_windows(flag(v)); } _ => panic!("setter {}", k) } }
             }
+            // only what the public getters return is shown (an unset field and a field holding its default are the same to a user)
             let show = |book: &Spreadsheet| -> String {
-                if which == "workbook_protection" { return format!("{:?}", book.get_workbook_protection()); }
+                if which == "workbook_protection" {
+                    return match book.get_workbook_protection() { None => "none".to_string(), Some(p) => format!("{}|{}|{}|{}|{}|{}|{}|{}|{}|{}|{}|{}|{}", p.get_workbook_algorithm_name(), p.get_workbook_hash_value(), p.get_workbook_salt_value(), p.get_workbook_spin_count(), p.get_workbook_password_raw(),
+                        p.get_revisions_algorithm_name(), p.get_revisions_hash_value(), p.get_revisions_salt_value(), p.get_revisions_spin_count(), p.get_revisions_password_raw(), p.get_lock_revision(), p.get_lock_structure(), p.get_lock_windows()) };
+                }
                 let ws = book.get_sheet_by_name("Sheet1").unwrap();
+                let color = |c: &Color| format!("argb={} idx={} theme={} tint={}", c.get_argb(), c.get_indexed(), c.get_theme_index(), c.get_tint());
                 match which.as_str() {
-                    "alignment" => format!("{:?}", ws.get_style((1, 1)).get_alignment()),
-                    "protection" => format!("{:?}", ws.get_style((1, 1)).get_protection()),
-                    "page_margins" => format!("{:?}", ws.get_page_margins()),
-                    "pane" => format!("{:?}", ws.get_sheets_views().get_sheet_view_list()[0].get_pane()),
-                    "sheet_protection" => format!("{:?}", ws.get_sheet_protection()),
-                    "data_validation" => format!("{:?}", ws.get_data_validations().map(|d| d.get_data_validation_list().to_vec())),
-                    "font" => format!("{:?}", ws.get_style((1, 1)).get_font()),
-                    "header_footer" => format!("{:?}", ws.get_header_footer()),
+                    "alignment" => match ws.get_style((1, 1)).get_alignment() { None => "none".into(), Some(a) => format!("{:?} {:?} {} {}", a.get_horizontal(), a.get_vertical(), a.get_wrap_text(), a.get_text_rotation()) },
+                    "protection" => match ws.get_style((1, 1)).get_protection() { None => "none".into(), Some(a) => { let mut a = a.clone(); let l = *a.get_locked(); let h = *a.get_hidden(); format!("{} {}", l, h) } },
+                    "page_margins" => { let m = ws.get_page_margins(); format!("{} {} {} {} {} {}", m.get_left(), m.get_right(), m.get_top(), m.get_bottom(), m.get_header(), m.get_footer()) }
+                    "pane" => match ws.get_sheets_views().get_sheet_view_list()[0].get_pane() { None => "none".into(), Some(p) => format!("{} {} {:?} {:?}", p.get_horizontal_split(), p.get_vertical_split(), p.get_active_pane(), p.get_state()) },
+                    "sheet_protection" => match ws.get_sheet_protection() { None => "none".into(), Some(a) => format!("{} {} {} {} {} {} {} {} {} {} {} {} {} {} {} {} |{}|{}|{}|{}", a.get_sheet(), a.get_objects(), a.get_delete_rows(), a.get_insert_columns(), a.get_delete_columns(), a.get_insert_hyperlinks(), a.get_auto_filter(), a.get_scenarios(),
+                        a.get_format_cells(), a.get_format_columns(), a.get_insert_rows(), a.get_format_rows(), a.get_pivot_tables(), a.get_select_locked_cells(), a.get_select_unlocked_cells(), a.get_sort(), a.get_algorithm_name(), a.get_hash_value(), a.get_salt_value(), a.get_spin_count()) },
+                    "data_validation" => match ws.get_data_validations() { None => "none".into(), Some(d) => d.get_data_validation_list().iter().map(|a| format!("{:?} {:?} {} {} {} |{}|{}|{}|{}|{}|{}", a.get_type(), a.get_operator(), a.get_allow_blank(), a.get_show_input_message(), a.get_show_error_message(),
+                        a.get_prompt_title(), a.get_error_title(), a.get_error_message(), a.get_prompt(), a.get_formula1(), a.get_formula2())).collect::<Vec<_>>().join(" ; ") },
+                    "font" => match ws.get_style((1, 1)).get_font() { None => "none".into(), Some(f) => format!("{}|{}|{}|{}|{}|{}|{}|{}|{}", f.get_name(), f.get_size(), f.get_bold(), f.get_italic(), f.get_strikethrough(), f.get_family(), f.get_charset(), f.get_underline(), f.get_scheme()) },
+                    "header_footer" => format!("{:?} | {:?}", ws.get_header_footer().get_odd_header().get_value(), ws.get_header_footer().get_odd_footer().get_value()),
                     "page_setup" => { let p = ws.get_page_setup(); format!("{} {:?} {} {} {} {} {}", p.get_paper_size(), p.get_orientation(), p.get_scale(), p.get_fit_to_height(), p.get_fit_to_width(), p.get_horizontal_dpi(), p.get_vertical_dpi()) }
-                    "borders" => format!("{:?}", ws.get_style((1, 1)).get_borders()),
-                    "pattern_fill" => format!("{:?}", ws.get_style((1, 1)).get_fill().map(|f| f.get_pattern_fill())),
-                    "color" => format!("{:?}", ws.get_style((1, 1)).get_font().map(|f| f.get_color())),
+                    "borders" => match ws.get_style((1, 1)).get_borders() { None => "none".into(), Some(b) => format!("{:?} {:?} {:?} {:?} {:?} {} {}", b.get_left().get_style(), b.get_right().get_style(), b.get_top().get_style(), b.get_bottom().get_style(), b.get_diagonal().get_style(), b.get_diagonal_up(), b.get_diagonal_down()) },
+                    "pattern_fill" => match ws.get_style((1, 1)).get_fill() { None => "none".into(), Some(f) => { let p = f.get_pattern_fill(); match p { None => "no pattern".into(), Some(p) => format!("{:?} fg[{}] bg[{}]", p.get_pattern_type(), p.get_foreground_color().map(color).unwrap_or("-".into()), p.get_background_color().map(color).unwrap_or("-".into())) } } },
+                    "color" => match ws.get_style((1, 1)).get_font() { None => "none".into(), Some(f) => color(f.get_color()) },
                     "sheet_view" => { let v = &ws.get_sheets_views().get_sheet_view_list()[0]; format!("{} {} {} {:?} {} {} {}", v.get_show_grid_lines(), v.get_tab_selected(), v.get_workbook_view_id(), v.get_view(), v.get_zoom_scale(), v.get_zoom_scale_normal(), v.get_top_left_cell()) }
+                    "row" => { let mut v: Vec<String> = ws.get_row_dimensions().iter().filter(|r| *r.get_row_num() != 1).map(|r| format!("{}: h={} d={} tb={} ch={} hid={}", r.get_row_num(), r.get_height(), r.get_descent(), r.get_thick_bot(), r.get_custom_height(), r.get_hidden())).collect(); v.sort(); v.join(" | ") }
+                    "defined_name" => { let mut v: Vec<String> = book.get_sheet_collection().iter().flat_map(|w| w.get_defined_names().iter().map(|d| format!("{}={} local={} hidden={}", d.get_name(), d.get_address(), d.get_local_sheet_id(), d.get_hidden())).collect::<Vec<_>>()).collect(); v.extend(book.get_defined_names().iter().map(|d| format!("{}={} local={} hidden={}", d.get_name(), d.get_address(), d.get_local_sheet_id(), d.get_hidden()))); v.sort(); v.join(" | ") }
                     _ => String::new(),
                 }
             };
